@@ -555,6 +555,11 @@ class _Run:
             if base == "copy" and "copy" not in env:
                 if f.attr == "deepcopy":
                     out = Val(imm=allargs[0].imm if allargs else False)
+                    # a memo argument that is not an empty display may already map objects of the original to themselves: whatever it
+                    # registers is shared, not copied - the result is no fresher than the original
+                    memo = e.args[1] if len(e.args) > 1 else next((k.value for k in e.keywords if k.arg == "memo"), None)
+                    if memo is not None and not (isinstance(memo, ast.Dict) and not memo.keys) and allargs:
+                        return shallow(allargs[0]).join(allargs[0])
                     # a class of the package that customises copying decides what deepcopy returns for its instances
                     for hook in ("__deepcopy__", "__reduce__", "__reduce_ex__", "__getstate__", "__copy__"):
                         for hq, hf in self.ix.funcs.items():
